@@ -37,17 +37,29 @@ def Case.hint (c : Case) (s : Nat) : Nat :=
   ((c.values s).length + (c.hints.getD s 0)).toNat
 def Case.pick (c : Case) (src i : Nat) (_x : Nat) : Nat := (c.dests.getD src []).getD i 0
 
-def showShard : Option (List Nat) → String
-  | none => "!"
-  | some l => showNatList l
+/-- `!` = the call returned `Err`, `~` = the call never returns (observed: still waiting when the
+observation window closes). -/
+def showShard : Outcome Nat → String
+  | .err => "!"
+  | .hang => "~"
+  | .ok l => showNatList l
+
+/-- `cut:<src>:<dst>:<k>` -/
+def parseCut (s : String) : Option (Nat × Nat × Nat) :=
+  match s.splitOn ":" with
+  | ["cut", a, b, k] => do pure ((← a.toNat?), (← b.toNat?), (← k.toNat?))
+  | _ => none
 
 def handle (toks : List String) : Option String :=
   match toks with
   | ["c19.reshard", variant, n, dests, hints, errs] => some <| (do
       let c ← parseCase variant n dests hints errs
       if c.dests.length != c.n then none else
-      let out := (List.range c.n).map fun d => showShard (shardResult c.n c.pick c.items c.hint d)
+      let out := (List.range c.n).map fun d => showShard (shardOutcome c.n c.pick c.items c.hint d)
       pure (String.intercalate "/" out)).getD "bad-request"
+  -- transport fault: the destination fails when the damaged stream ends; whether its peers have
+  -- already received its end-of-stream by then depends on timing, so the spec-side oracle decides
+  | ["c19.reshard", _, _, _, _, _, _fault] => some "judge"
   | _ => none
 
 /-! Spec-side oracle, from the request only: if some input stream fails (error item, or more items
@@ -58,19 +70,51 @@ def sortedStrict : List Nat → Bool
   | a :: b :: rest => a < b && sortedStrict (b :: rest)
   | _ => true
 
+/-- the placement / exactly-once / order conditions on the shards that returned a list; `expectAll`:
+also require that no record is missing over all shards -/
+def checkLists (c : Case) (lists : List (List Nat × Nat)) (expectAll : Bool) : String :=
+  let placed := lists.all fun (l, d) => l.all fun v => c.pick (v / 1000) (v % 1000) v == d && v % 1000 < (c.values (v / 1000)).length
+  let total := (lists.map (·.1.length)).sum
+  let expected := ((List.range c.n).map fun s => (c.values s).length).sum
+  if !placed then "fails a record is on a shard it was not routed to"
+  else if !(lists.all (sortedStrict ·.1)) then "fails a shard holds a record twice or not in (source shard, input position) order"
+  else if expectAll && total != expected then s!"fails {total} records after resharding, {expected} before"
+  else "holds"
+
 def oracle (toks : List String) (impl : String) : Option String :=
   match toks with
+  | ["c19.reshard", variant, n, dests, hints, errs, fault] => some <| (do
+      -- a damaged shard-to-shard stream (bytes lost, never a whole record): the receiving shard must not
+      -- return Ok; a shard that does return Ok holds exactly the records routed to it, all of them, in order
+      let c ← parseCase variant n dests hints errs
+      let (_, dst, _) ← parseCut fault
+      if impl.startsWith "timeout" || impl.startsWith "panic" then pure s!"fails resharding did not come back: {impl}" else
+      let shards := impl.splitOn "/"
+      if shards.length != c.n then pure "fails wrong number of shard results" else
+      if shards.any (· == "mixed") then pure "fails helpers disagree" else
+      let dstRes := shards.getD dst ""
+      if dstRes != "!" && dstRes != "~" then pure "fails the shard whose incoming stream lost bytes returned Ok" else
+      let oks : List (String × Nat) := shards.zipIdx.filter (fun (xd : String × Nat) => xd.1 != "!" && xd.1 != "~")
+      let lists : List (List Nat × Nat) ← oks.mapM (fun (xd : String × Nat) => do pure ((← parseNatList xd.1), xd.2))
+      let complete := lists.all fun (l, d) =>
+        l.length == ((List.range c.n).map fun s => ((List.range (c.values s).length).filter fun i => c.pick s i 0 == d).length).sum
+      if !complete then pure "fails a shard returned Ok without all the records routed to it"
+      else pure (checkLists c lists false)).getD "unknown"
   | ["c19.reshard", variant, n, dests, hints, errs] => some <| (do
       let c ← parseCase variant n dests hints errs
       if impl.startsWith "timeout" || impl.startsWith "panic" then pure s!"fails resharding did not complete: {impl}" else
       let shards := impl.splitOn "/"
       if shards.length != c.n then pure "fails wrong number of shard results" else
-      let failing := (List.range c.n).any fun s =>
-        (c.errs[s]?).join.isSome || (c.hint s < (c.values s).length)
+      let fails := fun (s : Nat) => (c.errs[s]?).join.isSome || (c.hint s < (c.values s).length)
+      let failing := (List.range c.n).any fails
       if failing then
-        pure (if shards.all (· == "!") then "holds" else "fails an input stream failed but some shard returned Ok (or helpers disagree)")
+        -- the operation must FAIL where the stream failed, and no shard may return Ok (it would go on
+        -- with records missing); a shard whose own stream is fine is allowed to wait forever (`~`)
+        if !(shards.all (fun x => x == "!" || x == "~")) then pure "fails an input stream failed but some shard returned Ok (or helpers disagree)"
+        else if (shards.zipIdx).any (fun (xs : String × Nat) => fails xs.2 && xs.1 != "!") then pure "fails the shard whose input stream failed did not return an error"
+        else pure "holds"
       else
-        if shards.any (fun x => x == "!" || x == "mixed") then pure "fails resharding of error-free input failed or helpers disagree" else
+        if shards.any (fun x => x == "!" || x == "~" || x == "mixed") then pure "fails resharding of error-free input failed, did not return, or helpers disagree" else
         let lists ← shards.mapM parseNatList
         let placed := (lists.zipIdx).all fun (l, d) => l.all fun v => c.pick (v / 1000) (v % 1000) v == d && v % 1000 < (c.values (v / 1000)).length
         let total := (lists.map List.length).sum
